@@ -22,7 +22,8 @@
 
 /* ── Limits ─────────────────────────────────────────────────────── */
 
-#define MAX_LOCALS      256
+#define MAX_LOCALS      32767   /* slots are u16 operands; local_find returns them as int16_t */
+#define LOCALS_INITIAL  256
 #define MAX_FUNCTIONS   512
 #define MAX_PATCHES     1024
 #define MAX_LOOP_DEPTH  32
@@ -118,7 +119,8 @@ struct CG {
     uint32_t code_cap;
 
     /* Local variables for current function */
-    Local locals[MAX_LOCALS];
+    Local *locals;           /* grows on demand, up to MAX_LOCALS */
+    uint16_t local_cap;
     uint16_t local_count;
     uint16_t param_count;
 
@@ -245,6 +247,16 @@ static uint16_t local_add(CG *cg, const char *name, int line) {
     if (cg->local_count >= MAX_LOCALS) {
         cg_error(cg, line, "too many local variables");
         return 0;
+    }
+    if (cg->local_count >= cg->local_cap) {
+        uint16_t new_cap = cg->local_cap ? (uint16_t)(cg->local_cap * 2) : LOCALS_INITIAL;
+        Local *grown = realloc(cg->locals, new_cap * sizeof(Local));
+        if (!grown) {
+            cg_error(cg, line, "out of memory");
+            return 0;
+        }
+        cg->locals = grown;
+        cg->local_cap = new_cap;
     }
     uint16_t slot = cg->local_count;
     cg->locals[slot].name = (char *)name;
@@ -2564,8 +2576,8 @@ static void compile_stmt(CG *cg, ASTNode *node) {
         uint8_t *saved_code = cg->code;
         uint32_t saved_code_size = cg->code_size;
         uint32_t saved_code_cap = cg->code_cap;
-        Local saved_locals[MAX_LOCALS];
-        memcpy(saved_locals, cg->locals, sizeof(cg->locals));
+        Local *saved_locals = cg->locals;
+        uint16_t saved_local_cap = cg->local_cap;
         uint16_t saved_local_count = cg->local_count;
         uint16_t saved_param_count = cg->param_count;
         LoopCtx saved_loops[MAX_LOOP_DEPTH];
@@ -2579,8 +2591,7 @@ static void compile_stmt(CG *cg, ASTNode *node) {
         /* Set up child compilation context using same CG struct */
         CG parent_snapshot;
         memcpy(&parent_snapshot, cg, sizeof(CG));
-        /* Restore parent's locals for upvalue resolution */
-        memcpy(parent_snapshot.locals, saved_locals, sizeof(saved_locals));
+        /* The snapshot keeps the parent's locals for upvalue resolution */
         parent_snapshot.local_count = saved_local_count;
         parent_snapshot.upvalues[0].name = NULL; /* sentinel */
         parent_snapshot.upvalue_count = saved_upvalue_count;
@@ -2590,6 +2601,8 @@ static void compile_stmt(CG *cg, ASTNode *node) {
         cg->code = malloc(CODE_INITIAL);
         cg->code_size = 0;
         cg->code_cap = CODE_INITIAL;
+        cg->locals = NULL;
+        cg->local_cap = 0;
         cg->local_count = 0;
         cg->param_count = (uint16_t)node->as.function.param_count;
         cg->loop_depth = 0;
@@ -2640,7 +2653,9 @@ static void compile_stmt(CG *cg, ASTNode *node) {
         cg->code = saved_code;
         cg->code_size = saved_code_size;
         cg->code_cap = saved_code_cap;
-        memcpy(cg->locals, saved_locals, sizeof(cg->locals));
+        free(cg->locals);
+        cg->locals = saved_locals;
+        cg->local_cap = saved_local_cap;
         cg->local_count = saved_local_count;
         cg->param_count = saved_param_count;
         memcpy(cg->loops, saved_loops, sizeof(cg->loops));
@@ -3328,6 +3343,7 @@ CodegenResult codegen_compile(ASTNode *program, Environment *env,
     }
 
     free(cg.code);
+    free(cg.locals);
 
     if (cg.had_error) {
         result.ok = false;
